@@ -615,8 +615,37 @@ func ruleGL3(c *Ctx) *rule {
 
 func ruleGL4(c *Ctx) *rule {
 	r := &rule{ID: "GL4", Engine: "E1+E2", Floor: 2,
-		Statement: "on the way from SpokFile.Run to GlobWalk the only guards are loop conditions, error checks and the 'already expanded' test taken on its miss side; a hit is only reported for a non-empty remembered expansion",
+		Statement: "on the way from SpokFile.Run to GlobWalk the only guards are loop conditions, error checks and the 'already expanded' test taken on its miss side; a hit is only reported for a non-empty remembered expansion; a list looked up in SpokFile.Globs is only read (never overwritten or appended to in place)",
 		Necessity: "any other guard leaves some declared pattern unexpanded (it then denotes no files: the task never re-runs / --clean removes nothing); a hit on the empty placeholder registered at load time would do the same for every pattern"}
+	// what a pattern is remembered to denote is only read afterwards: no value looked up in SpokFile.Globs is overwritten, sorted or
+	// appended to in place (a filter over `files[:0]` rewrites the remembered list for every later task and for --clean)
+	nLook := 0
+	for _, f := range c.ModFuncs {
+		for _, b := range f.Blocks {
+			for _, in := range b.Instrs {
+				lk, ok := in.(*ssa.Lookup)
+				if !ok || !isFieldLoad(lk.X, "file.SpokFile.Globs") {
+					continue
+				}
+				var val ssa.Value = lk
+				if lk.CommaOk {
+					val = nil
+					for _, ref := range valueReferrers(lk) {
+						if ex, isEx := ref.(*ssa.Extract); isEx && ex.Index == 0 {
+							val = ex
+						}
+					}
+				}
+				if val == nil {
+					continue
+				}
+				nLook++
+				if why := c.sliceMutation(val, 2, map[ssa.Value]bool{}, "the remembered expansion of a pattern"); why != "" && !strings.Contains(why, "re-ordered") {
+					r.bad(fmt.Sprintf("%s Globs[pattern] read-only#%d", fname(f), nLook), c.ipos(lk), why+": the pattern then denotes other files for every later use in the same run")
+				}
+			}
+		}
+	}
 	runM := c.method("file", "SpokFile", "Run")
 	onWay := 0
 	for _, gw := range c.globWalks() {
@@ -1394,6 +1423,51 @@ func ruleFD5(c *Ctx) *rule {
 			r.ok(key, c.bpos(b), "compares the listed directory, after its entries were read")
 		} else {
 			r.bad(key, c.bpos(b), "the walk can stop at the stop directory before its entries have been examined")
+		}
+	}
+	// any other test on the stop directory that can end the walk (a prefix test, a relative path): the walk must end at the stop
+	// directory and at the root, nowhere else
+	m := 0
+	for _, b := range fw.fn.Blocks {
+		if !fw.loop.body[b] {
+			continue
+		}
+		iff, ok := lastInstr(b).(*ssa.If)
+		if !ok {
+			continue
+		}
+		if bo, isBin := iff.Cond.(*ssa.BinOp); isBin && (bo.Op == token.EQL || bo.Op == token.NEQ) && (bo.X == ssa.Value(fw.stop) || bo.Y == ssa.Value(fw.stop)) {
+			continue
+		}
+		call, isCall := iff.Cond.(*ssa.Call)
+		if !isCall {
+			if u, isNot := iff.Cond.(*ssa.UnOp); isNot && u.Op == token.NOT {
+				call, isCall = u.X.(*ssa.Call)
+			}
+		}
+		if !isCall {
+			continue
+		}
+		onStop := false
+		for _, a := range call.Common().Args {
+			for _, o := range append([]ssa.Value{a}, origins(a)...) {
+				if o == ssa.Value(fw.stop) {
+					onStop = true
+				}
+			}
+		}
+		if !onStop {
+			continue
+		}
+		leaves := false
+		for _, sx := range b.Succs {
+			if !fw.loop.body[sx] {
+				leaves = true
+			}
+		}
+		if leaves {
+			m++
+			r.bad(fmt.Sprintf("%s stop-test#%d", fname(fw.fn), m), c.bpos(b), "the walk can also end on "+calleeName(call.Common())+" of the stop directory: it gives up (or goes on) where the stop directory is merely related to the directory searched, e.g. when the search started above it")
 		}
 	}
 	if n == 0 {
